@@ -186,7 +186,7 @@ func c01r1(c *core.Ctx) {
 						if rv, ok := callTo(m, cl, tr.GetEntity); ok && rv != nil && i < len(as.Lhs) {
 							if m.ExprString(rv) == T && m.ExprString(cl.Args[0]) == row {
 								if id, ok := as.Lhs[i].(*ast.Ident); ok {
-									entVars[id.Name] = true
+									entVars[m.ExprString(id)] = true
 								}
 							} else {
 								why = fmt.Sprintf("the swapped entity is read from %s at row %s, expected %s at row %s", m.ExprString(rv), m.ExprString(cl.Args[0]), T, row)
@@ -330,6 +330,14 @@ func c01r2(c *core.Ctx) {
 				if !ok {
 					return false, ""
 				}
+				// the index entry may also be written field by field (`e := &entities[x.id]; e.table = ..; e.row = ..`,
+				// or directly on the element): the assignment of the row field completes the write when the same
+				// statement list assigns the table field of the same entry
+				if len(as.Lhs) == 1 && len(as.Rhs) == 1 && fieldKeyOf(m, as.Lhs[0]) == "entityIndex.row" {
+					if ok2, why2, done := indexFieldWrite(m, f, as, cr.entity, cr.rowVar, ids, m.ExprString(cr.T)); done {
+						return ok2, why2
+					}
+				}
 				for i, l := range as.Lhs {
 					if i >= len(as.Rhs) {
 						continue
@@ -340,24 +348,34 @@ func c01r2(c *core.Ctx) {
 					}
 					var lit *ast.CompositeLit
 					appendForm := false
+					litOf := func(e ast.Expr) *ast.CompositeLit {
+						for _, x := range exprChain(m, f, e, 0) {
+							if cl, ok := ast.Unparen(x).(*ast.CompositeLit); ok {
+								return cl
+							}
+						}
+						return nil
+					}
 					switch r := ast.Unparen(as.Rhs[i]).(type) {
-					case *ast.CompositeLit:
-						lit = r
 					case *ast.CallExpr:
 						if m.IsBuiltin(r, "append") && len(r.Args) == 2 {
-							lit, _ = ast.Unparen(r.Args[1]).(*ast.CompositeLit)
+							lit = litOf(r.Args[1])
 							appendForm = true
 						}
+					default:
+						lit = litOf(r)
 					}
 					if lit == nil {
 						continue
 					}
 					var tab, row string
+					var tabExpr ast.Expr
 					for _, e := range lit.Elts {
 						if kv, ok := e.(*ast.KeyValueExpr); ok {
 							switch litFieldKey(m, kv) {
 							case "entityIndex.table":
 								tab = m.ExprString(kv.Value)
+								tabExpr = kv.Value
 							case "entityIndex.row":
 								row = m.ExprString(kv.Value)
 							}
@@ -376,7 +394,7 @@ func c01r2(c *core.Ctx) {
 					if row != cr.rowVar {
 						return false, fmt.Sprintf("index written with row %s, expected %s", row, cr.rowVar)
 					}
-					if !ids[tab] {
+					if !ids[tab] && !(tabExpr != nil && chainIn(m, f, tabExpr, ids)) {
 						return false, fmt.Sprintf("index written with table %s, expected the id of %s", tab, m.ExprString(cr.T))
 					}
 					return true, ""
@@ -611,6 +629,63 @@ func moveSummaryOf(c *core.Ctx, g *core.Func) *moveSummary {
 	return ms
 }
 
+// indexFieldWrite recognises the field-by-field form of the entity-index write ending in the statement rowAs
+// (`X.row = r`), where X is the index entry of `entity` (directly `entities[entity.id]`, or a local pointer to it) and a
+// sibling statement assigns `X.table`. done is false when rowAs is not such a write for this entity.
+func indexFieldWrite(m *core.Model, f *core.Func, rowAs *ast.AssignStmt, entity, wantRow string, ids map[string]bool, tname string) (ok bool, why string, done bool) {
+	sel, isSel := ast.Unparen(rowAs.Lhs[0]).(*ast.SelectorExpr)
+	if !isSel {
+		return false, "", false
+	}
+	base := m.ExprString(ast.Unparen(sel.X))
+	// the entry: entities[E.id], possibly through a local pointer
+	entryOf := ""
+	for _, e := range exprChain(m, f, sel.X, 0) {
+		x := ast.Unparen(e)
+		if u, isU := x.(*ast.UnaryExpr); isU {
+			x = ast.Unparen(u.X)
+		}
+		if ix, isIx := x.(*ast.IndexExpr); isIx && fieldKeyOf(m, ix.X) == "storage.entities" {
+			if isel, isS := m.StripConv(ix.Index).(*ast.SelectorExpr); isS {
+				entryOf = m.ExprString(isel.X)
+			}
+		}
+	}
+	if entryOf != entity {
+		return false, "", false
+	}
+	list, _ := enclosingStmtList(f, rowAs)
+	tab := ""
+	for _, st := range list {
+		if as2, isAs := st.(*ast.AssignStmt); isAs && len(as2.Lhs) == 1 && len(as2.Rhs) == 1 && fieldKeyOf(m, as2.Lhs[0]) == "entityIndex.table" {
+			if s2, isS := ast.Unparen(as2.Lhs[0]).(*ast.SelectorExpr); isS && m.ExprString(ast.Unparen(s2.X)) == base {
+				tab = m.ExprString(as2.Rhs[0])
+			}
+		}
+	}
+	if tab == "" {
+		return false, "", false
+	}
+	row := m.ExprString(rowAs.Rhs[0])
+	if row != wantRow {
+		return false, fmt.Sprintf("index written with row %s, expected %s", row, wantRow), true
+	}
+	if !ids[tab] {
+		return false, fmt.Sprintf("index written with table %s, expected the id of %s", tab, tname), true
+	}
+	return true, "", true
+}
+
+// chainIn reports whether e, or a single-definition local it stands for, renders as one of the strings in set.
+func chainIn(m *core.Model, f *core.Func, e ast.Expr, set map[string]bool) bool {
+	for _, v := range valueChain(m, f, e, 0) {
+		if set[v] {
+			return true
+		}
+	}
+	return false
+}
+
 // c01r3: rows used by column copies.
 func c01r3(c *core.Ctx) {
 	m := c.M
@@ -821,28 +896,19 @@ func c01r4(c *core.Ctx) {
 								if lit, ok := ast.Unparen(z.Rhs[i]).(*ast.CompositeLit); ok {
 									for _, e := range lit.Elts {
 										if kv, ok := e.(*ast.KeyValueExpr); ok {
-											if kv.Key.(*ast.Ident).Name == "table" {
-												tv := m.ExprString(kv.Value)
-												if ids[tv] {
+											switch litFieldKey(m, kv) {
+											case "entityIndex.table":
+												if chainIn(m, f, kv.Value, ids) {
 													tableOK = true
-												} else if id, ok := kv.Value.(*ast.Ident); ok {
-													if v, ok := m.Info.ObjectOf(id).(*types.Var); ok {
-														for _, d := range localDefsOf(m, f, v) {
-															if ids[m.ExprString(d)] {
-																tableOK = true
-															}
-														}
-													}
 												}
-											}
-											if kv.Key.(*ast.Ident).Name == "row" {
+											case "entityIndex.row":
 												rowWritten = true
 											}
 										}
 									}
 								}
 							case "entityIndex.table":
-								if ids[m.ExprString(z.Rhs[i])] {
+								if chainIn(m, f, z.Rhs[i], ids) {
 									tableOK = true
 								}
 							case "entityIndex.row":
@@ -1103,6 +1169,30 @@ func c01r6(c *core.Ctx) {
 		return false
 	}
 	for _, f := range m.AllFuncs() {
+		// values built field by field in a fresh local (var c T; c.pointer = p; c.data = d) are constructions: the
+		// order of the field stores does not matter, the pairing of pointer and buffer does
+		freshLocal := map[types.Object]bool{}
+		for _, cn := range constructionsOf(m, f) {
+			id, isLocal := cn.node.(*ast.Ident)
+			if !isLocal {
+				continue
+			}
+			bp, ok := bufferPairs[cn.typ]
+			if !ok {
+				continue
+			}
+			freshLocal[m.Info.ObjectOf(id)] = true
+			bufV, ptrV := cn.fields[cn.typ+"."+bp[0]], cn.fields[cn.typ+"."+bp[1]]
+			if bufV == nil {
+				continue
+			}
+			subject := fmt.Sprintf("%s: %s{...}", f.Name, cn.typ)
+			if ptrV != nil && pairedBuffer(m, f, bufV, ptrV) {
+				c.OK("C01/R6", subject, c.At(id.Pos()), "constructor derives the raw pointer from the buffer it stores")
+			} else {
+				c.Violation("C01/R6", subject, c.At(id.Pos()), fmt.Sprintf("%s: %s is constructed with a buffer but its raw pointer is not derived from that buffer", f.Name, cn.typ))
+			}
+		}
 		core.InspectNoLits(f.Body, func(n ast.Node) bool {
 			switch x := n.(type) {
 			case *ast.AssignStmt:
@@ -1115,6 +1205,9 @@ func c01r6(c *core.Ctx) {
 					if fld == nil {
 						continue
 					}
+					if id := identOf(sel.X); id != nil && freshLocal[m.Info.ObjectOf(id)] {
+						continue
+					}
 					key := m.FieldKey(fld)
 					owner := ownerOf(key)
 					bp, ok := bufferPairs[owner]
@@ -1124,7 +1217,7 @@ func c01r6(c *core.Ctx) {
 					if !reallocating(x.Rhs[i]) {
 						continue
 					}
-					base := m.ExprString(sel.X)
+					base := m.BaseString(sel.X)
 					subject := fmt.Sprintf("%s: %s.%s", f.Name, base, bp[0])
 					// K2: a later store to base.pointer derived from base.buffer on all paths
 					ptrKey := owner + "." + bp[1]
@@ -1138,7 +1231,7 @@ func c01r6(c *core.Ctx) {
 							if !ok || j >= len(as.Rhs) {
 								continue
 							}
-							if f2 := m.FieldOf(s2); f2 == nil || m.FieldKey(f2) != ptrKey || m.ExprString(s2.X) != base {
+							if f2 := m.FieldOf(s2); f2 == nil || m.FieldKey(f2) != ptrKey || m.BaseString(s2.X) != base {
 								continue
 							}
 							if derivedFrom(m, f, as.Rhs[j], base+"."+actualFieldName(m, owner+"."+bp[0]), 0) {
@@ -1188,7 +1281,7 @@ func c01r6(c *core.Ctx) {
 							for j, l2 := range as.Lhs {
 								if s2, ok := ast.Unparen(l2).(*ast.SelectorExpr); ok && j < len(as.Rhs) {
 									if f2 := m.FieldOf(s2); f2 != nil && m.FieldKey(f2) == owner+"."+bp[1] {
-										if derivedFrom(m, f, as.Rhs[j], m.ExprString(s2.X)+"."+actualFieldName(m, owner+"."+bp[0]), 0) {
+										if derivedFrom(m, f, as.Rhs[j], m.BaseString(s2.X)+"."+actualFieldName(m, owner+"."+bp[0]), 0) {
 											okAfter = true
 										}
 									}
@@ -1290,7 +1383,7 @@ func passedOnAllPaths(m *core.Model, f *core.Func, pred func(ast.Node) bool) boo
 }
 
 // passedOnAllPathsExcept is passedOnAllPaths with a set of return statements that are allowed to be reached without pred.
-func passedOnAllPathsExcept(m *core.Model, f *core.Func, pred func(ast.Node) bool, exempt map[*ast.ReturnStmt]bool) bool {
+func passedOnAllPathsExcept(m *core.Model, f *core.Func, pred func(ast.Node) bool, exempt map[*cfg.Block]bool) bool {
 	g := m.CFG(f)
 	if g == nil || len(g.Blocks) == 0 {
 		return false
@@ -1310,13 +1403,96 @@ func passedOnAllPathsExcept(m *core.Model, f *core.Func, pred func(ast.Node) boo
 	})
 	for _, b := range g.Blocks {
 		if fr.Reached[b] && m.IsReturnExit(b) && fr.Out[b] {
-			if r := b.Return(); r != nil && exempt[r] {
+			if exempt[b] {
 				continue
 			}
 			return false
 		}
 	}
 	return true
+}
+
+// passedOrGuardedOnAllPaths: every normal path from the entry of f to an exit (explicit return or the implicit end)
+// passes a node accepted by pred or takes a branch on which an atom accepted by guard holds.
+func passedOrGuardedOnAllPaths(m *core.Model, f *core.Func, pred func(ast.Node) bool, guard func(core.Atom) bool) bool {
+	g := m.CFG(f)
+	if g == nil || len(g.Blocks) == 0 {
+		return false
+	}
+	fr := core.Forward(g, core.Flow[bool]{
+		Entry: true, // obligation still open
+		Join:  func(a, b bool) bool { return a || b },
+		Equal: func(a, b bool) bool { return a == b },
+		Node: func(s bool, _ *cfg.Block, n ast.Node) bool {
+			core.WalkEval(n, func(x ast.Node, cond bool) {
+				if s && !cond && pred(x) {
+					s = false
+				}
+			})
+			return s
+		},
+		Edge: func(s bool, b *cfg.Block, succ int) (bool, bool) {
+			if !s || guard == nil {
+				return s, true
+			}
+			if c := core.BlockCond(b); c != nil {
+				if guard(core.Atom{Expr: c, Truth: succ == 0}) {
+					return false, true
+				}
+				for _, a := range core.Assume(c, succ == 0) {
+					if guard(a) {
+						return false, true
+					}
+				}
+			}
+			return s, true
+		},
+	})
+	for _, b := range g.Blocks {
+		if fr.Reached[b] && m.IsReturnExit(b) && fr.Out[b] {
+			return false
+		}
+	}
+	return true
+}
+
+// guardedExits returns the exit blocks of f (explicit returns and the implicit end alike) that are reached only
+// under an atom accepted by guard: every path to them takes a branch on which such an atom holds.
+func guardedExits(m *core.Model, f *core.Func, guard func(core.Atom) bool) map[*cfg.Block]bool {
+	out := map[*cfg.Block]bool{}
+	g := m.CFG(f)
+	if g == nil || len(g.Blocks) == 0 {
+		return out
+	}
+	fr := core.Forward(g, core.Flow[bool]{
+		Entry: false,
+		Join:  func(a, b bool) bool { return a && b },
+		Equal: func(a, b bool) bool { return a == b },
+		Node:  func(s bool, _ *cfg.Block, _ ast.Node) bool { return s },
+		Edge: func(s bool, b *cfg.Block, succ int) (bool, bool) {
+			if s {
+				return s, true
+			}
+			if c := core.BlockCond(b); c != nil {
+				// the whole condition first (a disjunction that holds yields no atoms), then its atoms
+				if guard(core.Atom{Expr: c, Truth: succ == 0}) {
+					return true, true
+				}
+				for _, a := range core.Assume(c, succ == 0) {
+					if guard(a) {
+						return true, true
+					}
+				}
+			}
+			return s, true
+		},
+	})
+	for _, b := range g.Blocks {
+		if fr.Reached[b] && m.IsReturnExit(b) && fr.Out[b] {
+			out[b] = true
+		}
+	}
+	return out
 }
 
 // c01r7: archetype uniqueness site.
